@@ -139,7 +139,8 @@ def _soak_and_blocks(acc, tier):
                           "replay": {"fn": "asym-history", "n": N, "args": list(t)}, "expected": ref_asym(*t), "observed": got})
             break
     acc.seen(("soak", N))
-    sizes = [55, 56, 63, 64, 65, 119, 127, 128, 4095, 4096, 4097, 8191, 8192, 8193, 65535, 65536, 65537] + ([] if tier == "quick" else [12289, 131073, 1 << 20])
+    sizes = [1, 16, 20, 28, 31, 32, 33, 48, 55, 56, 63, 64, 65, 119, 127, 128, 4095, 4096, 4097, 8191, 8192, 8193, 65535, 65536, 65537] + \
+            ([] if tier == "quick" else [12289, 131073, 1 << 20])
     for n in sizes:
         for pos in range(6):
             a = [b"a", b"b", b"X", b"Y", b"K", b"p"]
@@ -164,6 +165,31 @@ def _soak_and_blocks(acc, tier):
                         acc.violation("C17/symmetric-formula", {"what": "finalize_SPAKE2_symmetric differs from the formula for an argument of %d bytes (position %d)" % (n, pos),
                                       "replay": {"fn": "sym-size", "n": n, "pos": pos}, "expected": ref_sym(*t), "observed": got})
         acc.seen(("size", n))
+
+
+def _labels(acc):
+    """fields that begin with the protocol's own label bytes A / B / S (a function that 'helpfully' strips a side byte, or treats a
+    32-byte identity as a digest, only shows on such values), of equal and of different lengths, in every position"""
+    sp = T.lib().sp
+    vals = [b"S", b"A", b"B", b"Sx", b"Sy", b"Ax", b"By", b"SS", b"S" + b"\x01" * 32, b"S" + b"\x02" * 32, b"A" + b"\x01" * 32, b"B" + b"\x03" * 32,
+            b"\x53" * 33, b"I" * 32, b"J" * 32, hashlib.sha256(b"I" * 32).digest()]
+    for m1, m2 in itertools.product(vals, repeat=2):
+        for idS, K, pw in ((b"", b"K", b"pw"), (b"S", b"S", b"S")):
+            t = (idS, m1, m2, K, pw)
+            got = T.observe(sp.finalize_SPAKE2_symmetric, *t)
+            acc.n(states=1, transitions=1)
+            if got != ("ok", ref_sym(*t)):
+                acc.violation("C17/symmetric-formula", {"what": "finalize_SPAKE2_symmetric differs from the formula for messages that begin with a label byte",
+                              "replay": {"fn": "sym", "args": list(t)}, "expected": ref_sym(*t), "observed": got})
+    for a, b in itertools.product(vals, repeat=2):
+        for X, Y in ((b"X", b"Y"), (b"S" + b"\x01" * 32, b"S" + b"\x02" * 32)):
+            t = (a, b, X, Y, b"K", a)
+            got = T.observe(sp.finalize_SPAKE2, *t)
+            acc.n(states=1, transitions=1)
+            if got != ("ok", ref_asym(*t)):
+                acc.violation("C17/asymmetric-formula", {"what": "finalize_SPAKE2 differs from the formula for identities / messages of special form (label bytes, 32-byte values)",
+                              "replay": {"fn": "asym", "args": list(t)}, "expected": ref_asym(*t), "observed": got})
+    acc.seen(("labels", len(vals)))
 
 
 def _extra(acc):
@@ -218,6 +244,7 @@ def run(tier, seed):
     core.pmerge(_asym_task, [(a, b) for a in ALPHA for b in ALPHA], acc)
     core.pmerge(_sym_task, ALPHA, acc)
     _extra(acc)
+    _labels(acc)
     _poison(acc)
     _soak_and_blocks(acc, tier)
     return acc
